@@ -151,10 +151,10 @@ theorem correlating_update_fills (r : InRec) (a : AggRec) (hc : corrRequired r.f
   split <;> simp [(aggregate_keeps r _ _ _)]
 
 /-! ## Non-vacuity -/
-def cS : List CorrV := [.str [1], .str [], .str [], .str [], .str [], .str [], .ip4 [0,0,0,0], .num 0, .num 0, .num 0, .num 0]
-def cD : List CorrV := [.str [], .str [], .str [], .str [2], .str [], .str [], .ip4 [10,0,0,1], .num 443, .num 0, .num 0, .num 0]
+def cS : List CorrV := [.str [1], .str [], .str [], .str [], .str [], .str [], .ip4 [0,0,0,0], .num 0, .num 0, .num 0, .num 0, .ip6 zero16]
+def cD : List CorrV := [.str [], .str [], .str [], .str [2], .str [], .str [], .ip4 [10,0,0,1], .num 443, .num 0, .num 0, .num 0, .ip6 zero16]
 example : Proper cS ∧ Proper cD ∧ corrRequired 2 cS = true ∧ fromSrc cS ≠ fromSrc cD := by
   refine ⟨?_, ?_, ?_, ?_⟩ <;> (try unfold Proper) <;> decide
-example : correlate cD cS = [.str [1], .str [], .str [], .str [2], .str [], .str [], .ip4 [10,0,0,1], .num 443, .num 0, .num 0, .num 0] := by decide
+example : correlate cD cS = [.str [1], .str [], .str [], .str [2], .str [], .str [], .ip4 [10,0,0,1], .num 443, .num 0, .num 0, .num 0, .ip6 zero16] := by decide
 
 end Ipfix.C07
